@@ -163,3 +163,6 @@ def run(ctx):
     ctx.need(counter is not None, "COUNTER")
     r17_1(ctx, R, counter)
     r17_3(ctx, R)
+    import c15
+    c15.r15_3(ctx, R, counter)
+    ctx.rule("R15.3", "see C15 R15.3 (shared link): the len() observers the hints are built from read the counting fields")
